@@ -315,6 +315,56 @@ func SpecMatch(pattern string, hasWild bool, s string) bool {
 //@   ensures[C09] rs.e.count - card(rs.subs) == old(rs.e.count - card(rs.subs))
 //@   safety[C15]
 
+// --- resource events (C01, C02, C15) ---------------------------------------------------------
+
+// A loaded resource has its content (data-structure invariant).
+//@ define predLoadedOK(rs *ResourceSubscription) bool = (rs.state == stateCollection || rs.state == stateModel) &&
+//@     (rs.state == stateCollection ==> rs.collection != nil) && (rs.state == stateModel ==> rs.model != nil)
+
+// add: accepted only on a collection with 0 <= idx <= len; the new collection is the old one
+// with the value inserted at idx, built in a fresh backing array (the old collection, which
+// subscribers may still hold, is untouched); version +1; the event carries idx and value.
+// Rejected events leave resource, version and event untouched.
+//@ func (*ResourceSubscription).handleEventAdd
+//@   requires rs != nil && r != nil && rs.e != nil && rs.e.cache != nil
+//@   assumes predLoadedOK(rs)
+//@   ensures[C01,C02,C15] result ==> old(rs.state) == stateCollection && 0 <= r.Idx && r.Idx <= old(len(rs.collection.Values)) &&
+//@       len(rs.collection.Values) == old(len(rs.collection.Values)) + 1 && rs.version == old(rs.version) + 1 && r.Update &&
+//@       rs.collection.Values[r.Idx] == r.Value && r.Value.Type >= codec.ValueTypePrimitive
+//@   ensures[C01] result ==> (forall k int :: 0 <= k && k < r.Idx ==> rs.collection.Values[k] == old(rs.collection.Values[k])) &&
+//@       (forall k int :: r.Idx < k && k < len(rs.collection.Values) ==> rs.collection.Values[k] == old(rs.collection.Values[k-1]))
+//@   ensures[C01] result ==> fresh(rs.collection) && old(rs.collection).Values == old(rs.collection.Values) &&
+//@       (forall k int :: 0 <= k && k < old(len(rs.collection.Values)) ==> old(rs.collection).Values[k] == old(rs.collection.Values[k]))
+//@   ensures[C01,C15] !result ==> rs.collection == old(rs.collection) && rs.model == old(rs.model) && rs.version == old(rs.version) && rs.state == old(rs.state) &&
+//@       r.Update == old(r.Update) && r.Idx == old(r.Idx)
+//@   safety[C15]
+
+//@ func (*ResourceSubscription).handleEventRemove
+//@   requires rs != nil && r != nil && rs.e != nil && rs.e.cache != nil
+//@   assumes predLoadedOK(rs)
+//@   ensures[C01,C02,C15] result ==> old(rs.state) == stateCollection && 0 <= r.Idx && r.Idx < old(len(rs.collection.Values)) &&
+//@       len(rs.collection.Values) == old(len(rs.collection.Values)) - 1 && rs.version == old(rs.version) + 1 && r.Update &&
+//@       (forall i int :: i == r.Idx ==> r.Value == old(rs.collection.Values[i]))
+//@   ensures[C01] result ==> (forall k int :: 0 <= k && k < r.Idx ==> rs.collection.Values[k] == old(rs.collection.Values[k])) &&
+//@       (forall k int :: r.Idx <= k && k < len(rs.collection.Values) ==> rs.collection.Values[k] == old(rs.collection.Values[k+1]))
+//@   ensures[C01] result ==> fresh(rs.collection) && old(rs.collection).Values == old(rs.collection.Values) &&
+//@       (forall k int :: 0 <= k && k < old(len(rs.collection.Values)) ==> old(rs.collection).Values[k] == old(rs.collection.Values[k]))
+//@   ensures[C01,C15] !result ==> rs.collection == old(rs.collection) && rs.model == old(rs.model) && rs.version == old(rs.version) && rs.state == old(rs.state) &&
+//@       r.Update == old(r.Update) && r.Idx == old(r.Idx)
+//@   safety[C15]
+
+// The snapshot handed to a connection and its version are read as a pair.
+//@ func (*ResourceSubscription).GetModel
+//@   requires rs != nil && rs.e != nil
+//@   ensures[C01] result0 == rs.model && result1 == rs.version
+//@   assigns nothing
+//@   safety[C15]
+//@ func (*ResourceSubscription).GetCollection
+//@   requires rs != nil && rs.e != nil
+//@   ensures[C01] result0 == rs.collection && result1 == rs.version
+//@   assigns nothing
+//@   safety[C15]
+
 // --- get response (C09, C13, C15) --------------------------------------------------------
 
 // Registered resource subscriptions are well formed (data-structure invariant).
